@@ -8,6 +8,7 @@ import (
 
 	"github.com/inbucket/inbucket/v3/pkg/config"
 	"github.com/inbucket/inbucket/v3/pkg/metric"
+	"github.com/inbucket/inbucket/v3/pkg/verifhook"
 	"github.com/rs/zerolog/log"
 )
 
@@ -124,6 +125,7 @@ func (rs *RetentionScanner) DoScan(ctx context.Context) error {
 	retained := 0
 	storeSize := int64(0)
 	err := rs.ds.VisitMailboxes(func(messages []Message) bool {
+		verifhook.Yield("retention.scan.mailbox")
 		for _, msg := range messages {
 			if msg.Date().Before(cutoff) {
 				slog.Debug().Str("mailbox", msg.Mailbox()).
